@@ -8,15 +8,15 @@ PROP=$1; N=$2
 SRC=/tmp/seed/$PROP/out
 DST=/verif/seeded/$PROP-$N
 W=/tmp/scratch/vs.$PROP.$N
-rm -rf $W; git -C /repo worktree add -q --detach $W HEAD || exit 2
+rm -rf $W; git -C /repo worktree add -q --detach $W ${BASE:-HEAD} || exit 2
 trap "git -C /repo worktree remove --force $W" EXIT
 cd $W
 cp $SRC/demo${N}_test.go zz_demo${N}_test.go
-T0=$(go test -vet=off -count=1 -timeout 10m -run "TestZZDemo${N}" . 2>&1 | tail -3); R0=$?
+T0=$(go test ${RACE:+-race} -vet=off -count=1 -timeout 10m -run "TestZZDemo${N}" . 2>&1 | tail -3); R0=$?
 echo "$T0" | grep -q "^ok" && D0=PASS || D0=FAIL
 git apply $SRC/patch${N}.diff || { echo "patch does not apply"; exit 2; }
 go build ./... || { echo "does not build"; exit 2; }
-T1=$(go test -vet=off -count=1 -timeout 10m -run "TestZZDemo${N}" . 2>&1 | tail -5)
+T1=$(go test ${RACE:+-race} -vet=off -count=1 -timeout 10m -run "TestZZDemo${N}" . 2>&1 | tail -5)
 echo "$T1" | grep -q "^ok" && D1=PASS || D1=FAIL
 rm zz_demo${N}_test.go
 T2=$(go test -vet=off -count=1 -timeout 25m ./... 2>&1 | tail -3)
@@ -33,7 +33,11 @@ python3 - "$PROP" "$N" "$D0" "$D1" "$S" <<'PY'
 import json,sys
 prop,n,d0,d1,s=sys.argv[1:6]
 src=json.load(open(f'/tmp/seed/{prop}/out/meta{n}.json'))
-meta={"property":prop,"breaks":src.get("summary"),"needs_to_manifest":src.get("needs_to_manifest"),
+import os,subprocess
+base=os.environ.get('BASE','HEAD')
+basec=subprocess.run(['git','-C','/repo','rev-parse','--short',base],capture_output=True,text=True).stdout.strip()
+head_ok=subprocess.run(['git','-C','/repo','apply','--check',f'/tmp/seed/{prop}/out/patch{n}.diff'],capture_output=True).returncode==0
+meta={"property":prop,"written_against_commit":basec,"applies_to_current_head":head_ok,"breaks":src.get("summary"),"needs_to_manifest":src.get("needs_to_manifest"),
  "files_changed":src.get("files_changed"),
  "confirmed_by_me":{"commands":["git worktree add <scratch> HEAD","cp demo -> zz_demoN_test.go; go test -run TestZZDemoN .  (unchanged tree)","git apply patch.diff; go build ./...","go test -run TestZZDemoN .  (with the change)","go test -vet=off -count=1 -timeout 25m ./...  (existing suite with the change, demo removed)"],
    "demo_without_change":d0,"demo_with_change":d1,"existing_suite_with_change":s},
